@@ -1106,6 +1106,17 @@ var mutations = []mutation{
 		return os.WriteFile(filepath.Join(dir, "main.go"), []byte(q.Text), 0o644)
 	}, false},
 	{"no_gomod", func(dir string, p *prog, r *Rng) error { return os.Remove(filepath.Join(dir, "go.mod")) }, false},
+	// go/parser accepts receiver lists that are not valid Go (F10)
+	{"two_receivers", func(dir string, p *prog, r *Rng) error {
+		t := strings.ReplaceAll(p.Text, "\nfunc f", "\nfunc (a *T, b *U) f")
+		t = strings.ReplaceAll(t, "\nfunc (t *T) ", "\nfunc (t *T, u *U) ")
+		return os.WriteFile(filepath.Join(dir, "main.go"), []byte(t), 0o644)
+	}, false},
+	{"empty_receiver", func(dir string, p *prog, r *Rng) error {
+		t := strings.ReplaceAll(p.Text, "\nfunc f", "\nfunc () f")
+		t = strings.ReplaceAll(t, "\nfunc (t *T) ", "\nfunc () ")
+		return os.WriteFile(filepath.Join(dir, "main.go"), []byte(t), 0o644)
+	}, false},
 }
 
 func checkMutations(res *Result, p *prog, dir string, tb []byte) {
